@@ -26,9 +26,36 @@ RI = "ref_info.py"
 RS = "ref_schema.py"
 
 
-def propagated_fields(fi, dst, srcname):
-    """Fields f with  dst.f.update/extend(src.f)  or  dst.f[:] = src.f."""
+def propagated_fields(fi, dst, srcname, m=None, _depth=0):
+    """Fields f with  dst.f.update/extend(src.f)  or  dst.f[:] = src.f --
+    in the function itself or in a private helper it hands both objects to."""
     out = set()
+    if m is not None and _depth < 2:
+        for n in walk_shallow(fi.node):
+            if not (isinstance(n, ast.Call) and len(n.args) >= 2
+                    and not n.keywords):
+                continue
+            names = [a.id if isinstance(a, ast.Name) else None
+                     for a in n.args]
+            if dst not in names or srcname not in names:
+                continue
+            tgt = m.resolve(fi.module, n.func) if not isinstance(
+                n.func, ast.Attribute) or isinstance(
+                    n.func.value, ast.Name) else None
+            h = m.functions.get(tgt) if tgt else None
+            if h is None and isinstance(n.func, ast.Attribute) \
+                    and fi.cls is not None:
+                h = m.lookup_method(fi.cls.qualname, n.func.attr)
+            if h is None or not h.name.startswith("_"):
+                continue
+            ps = list(h.params)
+            if h.cls is not None and isinstance(n.func, ast.Attribute):
+                ps = ps[1:]
+            if len(ps) < len(names):
+                continue
+            out |= propagated_fields(h, ps[names.index(dst)],
+                                     ps[names.index(srcname)], m,
+                                     _depth + 1)
     # plain local aliases of a field:  x = dst.f  (bound once)
     alias = {}
     stores = {}
@@ -97,14 +124,14 @@ def run(ctx):
     if len(written) < 3:
         raise AnalysisError("anchor vanished: _add_child writes %s" % written)
     ds = m.fn(INF + ".SchemaType.deriveSectionType")
-    got = propagated_fields(ds, "t", "base")
+    got = propagated_fields(ds, "t", "base", m)
     # names of the locals are found by role: the result of createSectionType
     if not got:
         for n in walk_shallow(ds.node):
             if isinstance(n, ast.Assign) and isinstance(n.value, ast.Call) \
                     and src(n.value.func).endswith("createSectionType"):
                 got = propagated_fields(ds, n.targets[0].id,
-                                        ds.params[1])
+                                        ds.params[1], m)
     run.check(written <= got, "C11.R1", ds.qualname,
               "copies %s" % sorted(written),
               "every container written by _add_child (%s) is propagated from "
@@ -119,7 +146,7 @@ def run(ctx):
         if isinstance(n, ast.Assign) and isinstance(n.value, ast.Call) \
                 and src(n.value.func) == "SchemaType":
             newname = n.targets[0].id
-    got = propagated_fields(cd, newname or "new", cd.params[0])
+    got = propagated_fields(cd, newname or "new", cd.params[0], m)
     want = written | {"_types", "_components"}
     run.check(want <= got, "C11.R1", cd.qualname, "copies %s" % sorted(want),
               "children, key map, attribute map, type table and component "
